@@ -54,6 +54,9 @@ _MAX_LAYOUTS = 40
 # --------------------------------------------------------------------------------------
 # outcome descriptors
 
+TECHNIQUE = 'runtime monitoring: metamorphic oracle over the complete enumeration of block layouts of one FrameSpec (every layout must give the outcome of the all-1-D layout for ~60 operations) + structural coherence of every read route'
+
+
 def descr(x, depth=0):
     import static_frame as sf
     from static_frame.core.index_base import IndexBase
